@@ -187,6 +187,10 @@ pub struct Profile {
     pub prunes: u32,
     #[serde(default)]
     pub queue_events: u32,
+    /// an execution that is told to stop (cancel / time limit) does not end at once: its process dies at a later step `Die`,
+    /// until then the worker keeps its resources
+    #[serde(default)]
+    pub slow_stop: bool,
 }
 
 fn yes() -> bool {
@@ -212,6 +216,8 @@ pub enum Choice {
     S2W { w: u32 },
     W2S { w: u32 },
     Exit { w: u32, t: u64, ok: bool },
+    /// the process of an execution that was told to stop is gone
+    Die { w: u32, t: u64 },
     Lose { w: u32, reason: String },
     Connect { kind: usize },
     Stop { w: u32 },
@@ -235,6 +241,9 @@ pub struct TaskHandle {
 #[derive(Default)]
 pub struct Shared {
     pub handles: BTreeMap<(u32, u64), TaskHandle>,
+    /// executions that observed their stop signal and have not ended yet (profiles with `slow_stop`)
+    pub dying: BTreeMap<(u32, u64), (u32, oneshot::Sender<()>)>,
+    pub slow_stop: bool,
     pub starts: Vec<Value>,
     pub stops: Vec<Value>,
     pub fail_launch: BTreeSet<u64>,
@@ -296,9 +305,23 @@ impl TaskLauncher for SimLauncher {
                     match r {
                         Ok(reason) => {
                             let name = match reason { StopReason::Cancel => "cancel", StopReason::Timeout => "timeout" };
-                            let mut s = shared.borrow_mut();
-                            s.stops.push(json!({"w": w, "t": tid, "inst": inst, "reason": name}));
-                            s.handles.remove(&(w, tid));
+                            let wait = {
+                                let mut s = shared.borrow_mut();
+                                s.stops.push(json!({"w": w, "t": tid, "inst": inst, "reason": name}));
+                                s.handles.remove(&(w, tid));
+                                if s.slow_stop {
+                                    let (dtx, drx) = oneshot::channel::<()>();
+                                    s.dying.insert((w, tid), (inst, dtx));
+                                    Some(drx)
+                                } else {
+                                    None
+                                }
+                            };
+                            if let Some(drx) = wait {
+                                if drx.await.is_err() {
+                                    return futures::future::pending().await;
+                                }
+                            }
                             Ok(TaskResult::from(reason))
                         }
                         Err(_) => futures::future::pending().await,
@@ -347,6 +370,8 @@ struct StreamClient {
     conn: ClientConn,
     got_response: bool,
     got_completed: bool,
+    /// the client went away (as `hq submit --wait` does once its job is reported complete)
+    left: bool,
 }
 
 pub struct Cluster {
@@ -745,7 +770,7 @@ impl Cluster {
             flushed: 0,
             pending_flush: Vec::new(),
             workers: BTreeMap::new(),
-            shared: Rc::new(RefCell::new(Shared::default())),
+            shared: Rc::new(RefCell::new(Shared { slow_stop: profile.slow_stop, ..Shared::default() })),
             client,
             streams: Vec::new(),
             server_dir,
@@ -930,6 +955,7 @@ impl Cluster {
             }
         }
         // streaming clients
+        let mut someone_left = false;
         for sc in self.streams.iter_mut() {
             while let Ok(Some(m)) = sc.conn.rx.try_next() {
                 match m {
@@ -938,12 +964,22 @@ impl Cluster {
                         if let EventPayload::JobCompleted(j) = e.payload {
                             if j.as_num() == sc.job {
                                 sc.got_completed = true;
+                                // two of three waiting clients leave right away, the others keep the connection
+                                if sc.job % 3 != 0 && !sc.left {
+                                    sc.left = true;
+                                    sc.conn.tx.close_channel();
+                                    someone_left = true;
+                                }
                             }
                         }
                     }
                     _ => {}
                 }
             }
+        }
+        if someone_left {
+            // the server notices the closed connection (client_rpc_loop ends and unregisters the listener)
+            pump().await;
         }
     }
 
@@ -990,6 +1026,9 @@ impl Cluster {
         }
         {
             let shared = self.shared.borrow();
+            for ((w, t), _) in shared.dying.iter() {
+                out.push(Choice::Die { w: *w, t: *t });
+            }
             for ((w, t), _) in shared.handles.iter() {
                 out.push(Choice::Exit {
                     w: *w,
@@ -1103,6 +1142,7 @@ impl Cluster {
             .filter(|c| match c {
                 Choice::Schedule | Choice::S2W { .. } | Choice::W2S { .. } | Choice::FlushAck => true,
                 Choice::Exit { ok, .. } => *ok,
+                Choice::Die { .. } => true,
                 Choice::Lose { w, .. } => self.workers.get(w).map(|sw| sw.stopped).unwrap_or(false),
                 _ => false,
             })
@@ -1258,6 +1298,7 @@ impl Cluster {
                         conn,
                         got_response: false,
                         got_completed: false,
+                        left: false,
                     });
                     self.collect().await;
                     let after = self.all_job_ids();
@@ -1440,6 +1481,7 @@ impl Cluster {
                     sw.retract.abort();
                     sw.worker.shutdown();
                     self.shared.borrow_mut().handles.retain(|(ww, _), _| ww != w);
+                self.shared.borrow_mut().dying.retain(|(ww, _), _| ww != w);
                     self.server
                         .lose_worker(WorkerId::new(*w), LostWorkerReason::TimeLimitReached);
                     drop(sw);
@@ -1470,6 +1512,16 @@ impl Cluster {
                 self.collect().await;
                 ("Exit".into(), json!({"w": w, "t": t, "ok": ok, "inst": inst}), json!({}))
             }
+            Choice::Die { w, t } => {
+                let d = self.shared.borrow_mut().dying.remove(&(*w, *t));
+                let mut inst = 0;
+                if let Some((i, tx)) = d {
+                    inst = i;
+                    let _ = tx.send(());
+                }
+                self.collect().await;
+                ("Die".into(), json!({"w": w, "t": t, "inst": inst}), json!({}))
+            }
             Choice::Lose { w, reason } => {
                 let was_stopped = self.workers.get(w).map(|s| s.stopped).unwrap_or(false);
                 if !was_stopped {
@@ -1480,6 +1532,7 @@ impl Cluster {
                 sw.worker.shutdown();
                 let dropped_w2s: Vec<Value> = sw.w2s.iter().map(from_worker_json).collect();
                 self.shared.borrow_mut().handles.retain(|(ww, _), _| ww != w);
+                self.shared.borrow_mut().dying.retain(|(ww, _), _| ww != w);
                 self.server.lose_worker(WorkerId::new(*w), reason_from(reason));
                 drop(sw);
                 self.collect().await;
@@ -1669,7 +1722,8 @@ impl Cluster {
                 s["remaining"] = if sw.time_limit == 0 {
                     json!(-1)
                 } else {
-                    json!(sw.time_limit as i64 - (self.vnow - sw.connected_at) as i64)
+                    // (a worker past its end of life that the server has not removed yet has nothing left; negative = no limit)
+                    json!((sw.time_limit as i64 - (self.vnow - sw.connected_at) as i64).max(0))
                 };
                 s
             })
@@ -1704,8 +1758,15 @@ impl Cluster {
             .iter()
             .map(|s| json!({"job": s.job, "resp": s.got_response, "completed": s.got_completed}))
             .collect();
+        let dying: Vec<Value> = self
+            .shared
+            .borrow()
+            .dying
+            .iter()
+            .map(|((w, t), (inst, _))| json!({"w": w, "t": t, "inst": inst}))
+            .collect();
         json!({
-            "srv": srv, "wk": wk, "jobs": jobs, "fut": running, "streams": streams,
+            "srv": srv, "wk": wk, "jobs": jobs, "fut": running, "dying": dying, "streams": streams,
             "jlen": self.journal.len(), "flushed": self.flushed, "now": self.vnow,
             "pending_flush": self.pending_flush.len(),
         })
